@@ -947,7 +947,7 @@ func (c *compiler) evalCallExpression(node *ast.CallExpression) (interface{}, er
 			for k, v := range octx.data {
 				c.ctx.Set(k, v)
 			}
-			c.ctx.Set(node.Function.String(), res[0].Interface())
+			c.ctx.Set(chainKey(node), res[0].Interface())
 			vvs, err := c.evalExpression(node.ChainCallee)
 			if err != nil {
 				return nil, err
@@ -1248,6 +1248,32 @@ func callReceiver(node ast.Expression) *ast.Identifier {
 	}
 
 	return id
+}
+
+// chainKey is the name under which the expression chained to a call looks the
+// call's result up. The parser fixed it when it parsed the call; the printed
+// form of the function may have grown a receiver since (x[i].a.M().b).
+func chainKey(node *ast.CallExpression) string {
+	var id *ast.Identifier
+
+	switch cc := node.ChainCallee.(type) {
+	case *ast.Identifier:
+		id = cc
+	case *ast.IndexExpression:
+		id, _ = cc.Left.(*ast.Identifier)
+	case *ast.CallExpression:
+		id, _ = cc.Callee.(*ast.Identifier)
+	}
+
+	if id == nil {
+		return node.Function.String()
+	}
+
+	for id.Callee != nil {
+		id = id.Callee
+	}
+
+	return id.Value
 }
 
 func unsafeGetBytes(s string) []byte {
